@@ -39,6 +39,26 @@ CHECKS = {
    "exhaustive configuration x program enumeration on real handlers (panic value x kind x protocol x panic point x interceptor position x panic(nil) runtime semantics)",
    "Each panic value (nil, error, string, struct, pointer, the http abort sentinel, an error wrapping the sentinel, none) is raised at each point (before anything, after the first response, after the last) in each RPC kind and protocol with WithRecover preceded/followed by 0..2 other interceptors, under both GODEBUG panicnil settings; the recovery function must run exactly once with the recovered value, the client must receive exactly its error after the messages already sent, the sentinel must leave ServeHTTP untouched with zero recovery calls, and non-panicking calls must equal a handler without WithRecover.",
    "memhttp reports what escapes ServeHTTP as net/http's server would see it"),
+ "C08": ("model_checking", "DESIGN.md 4/C08",
+   "bounded exhaustive configuration + history enumeration on real clients/handlers with a wire-level oracle (recorded exchange decompressed by reference implementations)",
+   "Every registration order of every subset of three custom algorithms (plus the built-in gzip) on the client and on the handler, every send-compression choice including unregistered ones, compress-min-bytes with sizes around the threshold, raw requests with every (encoding, accept-encoding) header pair of a menu, and every history of valid/corrupt compressed calls up to length 3 (quick) / 4 (thorough) through one shared Client/Handler, in every protocol. The oracle reads the recorded bytes: response algorithm supported and offered, the client's first-listed mutual one when the request was identity, unknown request algorithm -> unimplemented listing the supported set without running user code, small messages unflagged, every flagged message decompresses to the sent bytes, valid calls after corrupt ones are unaffected.",
+   "custom algorithms are magic-byte XOR codecs; quick visits a third of the 16x16 order pairs (rotating), thorough all"),
+ "C09": ("model_checking", "DESIGN.md 4/C09",
+   "bounded exhaustive enumeration of limits x sizes x positions x protocols x sides on real clients/handlers plus hostile raw peers with an allocation probe",
+   "For N in {2,3,5,64,512,1024,65536}: messages of size 0, N-1, N, N+1, 64N at positions 1..3 of a stream (identity encoding, so wire size = encoded size), limit on the handler or on the client, all three protocols; hostile peers send gzip with wire <= N < decompressed, gzip inflating to 32 MiB, and length prefixes of 0xFFFFFFFF / 64 MiB with 10 bytes present, with a TotalAlloc probe. A message is delivered iff max(wire, decompressed) <= N, oversize fails the call with invalid_argument, within-limit sequences arrive intact, and the receiver does not buffer the declared / inflated size.",
+   "'all N >= 1' is seven values; allocation is bounded through a coarse allowance (8N + 4 MiB vs 32 MiB), not measured exactly; one known finding (limit also applies to the gRPC-Web trailer frame)"),
+ "C10": ("model_checking", "DESIGN.md 4/C10",
+   "boundary-complete domain enumeration of durations and header strings through real calls inside a fake-clock bubble, plus complete enumeration of a contiguous duration range through the pure encoder/parser, against an independent grammar",
+   "Durations at every unit x digit-count boundary (each +-1 ns), Connect's 1 ms and 10-digit limits and 2^63-1 are given to real clients inside a synctest bubble (no time passes, so 'time remaining' is exact); the timeout header actually sent is parsed by an independent grammar and must be <= remaining, within the encoding's granularity, grammatical, absent iff inexpressible, and equal to the handler context's deadline. Every duration 1..2e6 ns (quick) / 1.2e8 ns (thorough) goes through the gRPC encoder and parser. Every header string up to length 3 (quick) / 4 (thorough) over a 12-symbol alphabet plus unit x 1..12-digit and overflow forms is sent to real handlers: grammatical values must be honoured exactly (unbounded beyond time.Duration), malformed ones rejected with invalid_argument without running user code.",
+   "signed numbers and zero-padding beyond the digit limit are recorded but not judged (the property lists neither as grammatical nor as malformed); one known finding (Connect client with < 1 ms left sends no timeout)"),
+ "C12": ("model_checking", "DESIGN.md 4/C12",
+   "exhaustive request enumeration (method x HTTP version x Content-Type near-miss closure x codec sets x RPC kinds) into the real Handler.ServeHTTP against a reference computed from the property text",
+   "Eight methods x three HTTP versions x every advertised Content-Type, every single-character deletion / case flip / insertion of each, parameter and whitespace variants, the application/{grpc,grpc-web,connect,}{,+}{names} grid and unrelated types x four registered codec sets x four RPC kinds (1.5e5 requests quick) are served by real handlers; 405+Allow, 505, 415 iff the type is not in the reference set, Accept-Post equal to the reference set, zero runs of user code and interceptors when rejected and exactly one run with the constructor's Spec otherwise. Real calls over six URL shapes check that client and handler interceptors see the same procedure and stream type.",
+   "requests are handed to ServeHTTP directly; with a codec literally named grpc the Connect and gRPC types collide and only the run-at-most-once clause is asserted"),
+ "C18": ("model_checking", "DESIGN.md 4/C18",
+   "complete enumeration of the codec domains themselves (all 2^32 codes in thorough; all byte strings up to length 3; all strings up to length 6 over a decoder alphabet)",
+   "Code text round trip and 4xx/5xx status for every value below 2^20, above 2^32-2^20 and around every power of two (quick) or all 2^32 values (thorough); UnmarshalText rejects every string of length <= 3 over 40 symbols and every single-character edit of each name that is neither a name nor code_<number>; the gRPC percent-encoding round-trips every byte string of length <= 3 (16.8 M) with printable-ASCII output, its decoder is total on every string of length <= 6 over {%,0,A,f,G,space,0xFF,a}; every code returned by a real unary Connect handler reaches the wire as 4xx/5xx; no operation panics.",
+   "unexported functions reached through overlay-only exported wrappers; code_<signed or in-range number> forms are not judged"),
 }
 
 PENDING = {
